@@ -350,6 +350,19 @@ def templates(w):
                 yield 'prefix-args', Op('+', Op('-', B), A)
         yield 'prefix-args', ex.ExprCond(Op('^', A, B), x, y)
         yield 'prefix-args', Op('==', A, B)
+    # 7d operands that differ only in a field that does not show in their width: conditionals whose conditions are slices of
+    # the same term with the same start and another stop (or the same stop and another start), identifiers of another size
+    if w >= 8:
+        Xw = ex.ExprId('X%d' % (2 * w if w < 64 else 64), 2 * w if w < 64 else 64)
+        for (s1, t1), (s2, t2) in (((0, 1), (0, 8)), ((0, 8), (0, w)), ((0, 8), (1, 8)), ((1, 2), (0, 2))):
+            c1, c2 = ex.ExprCond(ex.ExprSlice(Xw, s1, t1), x, y), ex.ExprCond(ex.ExprSlice(Xw, s2, t2), x, y)
+            for outer in ('^', '-', '|', '&', '+'):
+                yield 'cond-twins', Op(outer, c1, c2)
+                yield 'cond-twins', Op(outer, c2, c1)
+            yield 'cond-twins', Op('+', c1, Op('-', c2))
+            yield 'cond-twins', Op('==', c1, c2)
+        n8, n1 = ex.ExprId('n', 8), ex.ExprId('n', 1)
+        yield 'cond-twins', Op('^', ex.ExprCond(n8, x, y), ex.ExprCond(n1, x, y))
     # 8 ==
     for c in few:
         yield 'eq', Op('==', Op('|', x, I(c)), I(0))
